@@ -6,6 +6,7 @@ import Mathlib.Tactic.Ring
 import Mathlib.Tactic.Linarith
 import Resvg.Convert.Bbox
 import Resvg.Lemmas.Transform
+import Resvg.Generated.FiniteGuards
 
 namespace Resvg.Props.C18
 open Resvg Resvg.Geom Resvg.Convert Resvg.Lemmas
@@ -96,5 +97,52 @@ theorem C18_nonzero_box_keeps_invertible (t : Transform Rat) (b : LTRB Rat)
 theorem C18_zero_box_degenerate (t : Transform Rat) (b : LTRB Rat) (hw : b.width = 0) :
     det (gradientToUser t b) = 0 := by
   rw [(C18_rewriting_scales_det t b).1, hw]; ring
+
+/-! ### which definitions may be shared between elements
+
+A clip path links another one through its own `clip-path` attribute (a mask through `mask`); the whole chain
+is converted for the element that uses the first one.  A converted chain may be kept and handed to the next
+element only if it does not depend on the element: every member in user-space units. -/
+
+/-- a chain of clip paths as the converter sees it: per member, "is in bounding-box units" and its transform -/
+abbrev ClipChain := List (Bool × Transform Rat)
+
+/-- the transforms of the converted chain for an element with box `b` -/
+def resolveChain (chain : ClipChain) (b : LTRB Rat) : List (Transform Rat) :=
+  chain.map (fun e => if e.1 then clipToUser e.2 b else e.2)
+
+/-- the rule of the current sources (`units == UserSpaceOnUse && !links_bbox_units(node)`): no member in
+    bounding-box units -/
+def shareable (chain : ClipChain) : Bool := chain.all (fun e => !e.1)
+
+/-- the former rule looked at the first member only -/
+def shareableOld (chain : ClipChain) : Bool := match chain with
+  | [] => true
+  | e :: _ => !e.1
+
+/-- **a shared conversion is the conversion every element would get**: when the chain is shareable its
+    resolution does not depend on the element's box -/
+theorem C18_shareable_chain_is_box_independent (chain : ClipChain) (h : shareable chain = true) (b1 b2 : LTRB Rat) :
+    resolveChain chain b1 = resolveChain chain b2 ∧ ∀ g ∈ Generated.sharingRuleChainAware, g.2 = true := by
+  refine ⟨?_, by decide⟩
+  unfold resolveChain
+  apply List.map_congr_left
+  intro e he
+  have := List.all_eq_true.mp h e he
+  simp at this
+  simp [this]
+
+/-- the former rule shared a user-space clip path that links a bounding-box one: two elements with
+    different boxes need different conversions of the linked member (the second element got the first
+    one's and, in the recorded witness, disappeared) -/
+theorem C18_old_sharing_rule_wrong :
+    let chain : ClipChain := [(false, ⟨1, 0, 0, 1, 0, 0⟩), (true, ⟨1, 0, 0, 1, 0, 0⟩)]
+    shareableOld chain = true ∧ shareable chain = false ∧
+    resolveChain chain ⟨0, 0, 10, 10⟩ ≠ resolveChain chain ⟨50, 50, 80, 90⟩ := by
+  refine ⟨rfl, rfl, ?_⟩
+  intro h
+  have h2 := congrArg (fun l => (l.getD 1 ⟨0, 0, 0, 0, 0, 0⟩).tx) h
+  revert h2
+  decide +kernel
 
 end Resvg.Props.C18
